@@ -215,7 +215,7 @@ pub fn run(ctx: &mut Ctx) {
         let mw: u64 = if ctx.thorough() { *rng.pick(&[65536u64, 131072, 1_048_576]) } else { *rng.pick(&[65536u64, 131072]) };
         // 0.25x is outside the property's configurations but accepted by the API: the writer must keep running
         let mk = (mw as f64 * *rng.pick(&[1.0f64, 2.0, 3.5, 10.0, 1.0, 2.0, 3.5, 10.0, 0.25])) as u64;
-        let ka = if rng.chance(1, 3) { 60 } else { 0 };
+        let ka = if rng.chance(1, 3) || k % 4 == 1 { 60 } else { 0 };
         let nex = rng.below(6);
         let mut ages: Vec<u64> = Vec::new();
         let ex: Vec<String> = (0..nex).map(|_| {
@@ -224,12 +224,14 @@ pub fn run(ctx: &mut Ctx) {
             ages.push(age);
             format!("{}:{age}", rng.range(100, 90_000))
         }).collect();
-        let nev = if ctx.thorough() && k % 50 == 7 { 20000 } else if ctx.thorough() && k % 10 == 0 { 4000 } else { rng.range(100, 700) };
+        // every fourth run is short: a few small events that never rotate (retention must not wait for a rotation)
+        let short = k % 4 == 1;
+        let nev = if short { rng.range(1, 6) } else if ctx.thorough() && k % 50 == 7 { 20000 } else if ctx.thorough() && k % 10 == 0 { 4000 } else { rng.range(100, 700) };
         let nrestart = if rng.chance(1, 2) { 0 } else { rng.range(1, 3) };
         let mut pads = String::new();
         for i in 0..nev {
             if i > 0 { pads.push(if nrestart > 0 && rng.chance(nrestart, nev) { '|' } else { ',' }); }
-            pads.push_str(&match rng.below(10) { 0 => rng.range(20_000, 60_000), 1 | 2 => rng.range(2000, 9000), _ => rng.range(1, 400) }.to_string());
+            pads.push_str(&match if short { 9 } else { rng.below(10) } { 0 => rng.range(20_000, 60_000), 1 | 2 => rng.range(2000, 9000), _ => rng.range(1, 400) }.to_string());
         }
         if ctx.mine(idx) { case_writer(ctx, &mw.to_string(), &mk.to_string(), &ka.to_string(), &ex.join(","), &pads); }
     }
